@@ -146,15 +146,16 @@ func (b *sendDataWriter) Write(p []byte) (int, error) {
 			return 0, err
 		}
 
-		if b.transfer.bufInitPhase.Load() {
-			b.transfer.bufInitWG.Add(1)
-		}
 		if !b.deliver(b.buffer.Bytes()) {
 			return 0, b.ctx.Err()
 		}
 
 		if b.transfer.bufInitPhase.Load() {
-			b.transfer.bufInitWG.Wait()
+			select {
+			case <-b.transfer.bufInitCh:
+			case <-b.ctx.Done():
+				return 0, b.ctx.Err()
+			}
 		}
 		b.bufSize = b.transfer.bufferSize.Load()
 		b.buffer = bytes.NewBuffer(make([]byte, 0, b.bufSize))
@@ -618,6 +619,13 @@ func (t *trzszTransfer) pipelineRecvCurrentAck() (int64, int64, bool, error) {
 	return length, step, pause, nil
 }
 
+func (t *trzszTransfer) bufInitDone() {
+	select {
+	case t.bufInitCh <- struct{}{}:
+	default:
+	}
+}
+
 func (t *trzszTransfer) pipelineRecvFinalAck(ctx *pipelineContext, size int64, progressChan chan<- int64) {
 	for ctx.Err() == nil {
 		resp, _, _, err := t.recvCheckV2("SUCC")
@@ -743,12 +751,12 @@ func (t *trzszTransfer) pipelineRecvAck(ctx *pipelineContext, size int64, ackCha
 				if length == bufSize && chunkTime < 500*time.Millisecond && bufSize < t.transferConfig.MaxBufSize {
 					t.bufferSize.Store(minInt64(bufSize*2, t.transferConfig.MaxBufSize))
 					if t.bufInitPhase.Load() {
-						t.bufInitWG.Done()
+						t.bufInitDone()
 					}
 				} else {
 					if t.bufInitPhase.Load() {
 						t.bufInitPhase.Store(false)
-						t.bufInitWG.Done()
+						t.bufInitDone()
 					}
 					if chunkTime >= 2*time.Second && length <= bufSize {
 						bufSize = bufSize / int64(chunkTime/time.Second)
